@@ -77,11 +77,31 @@ def Mod.bytes : Mod → List Nat
 def actualOffset (origOff : Nat) (ab : Block) (total : Int) (off : Nat) : Int :=
   (off : Int) + total - ((ab.off : Int) - (origOff : Int))
 
+/-- the code blocks of a patch that are still attached and in no function yet join function `f`:
+what the loop does for a patch that went into a *data* block (the trailing data of an earlier
+patch at the same location), where `insert` cannot tell whose code it is -/
+def IR.adoptPatchBlocks (ir : IR) (p : Patch) (f : Nat) : IR :=
+  p.text.blocks.foldl (fun ir b =>
+    match ir.block? b.id with
+    | some blk =>
+      if b.isCode && blk.bi.isSome && (alookup b.id ir.fbb).isNone then ir.addFunctionBlock b.id f else ir
+    | none => ir) ir
+
+/-- one insertion of the loop: `insert`, then the function membership of code that went into a
+data block (`func`: the function of the block the requests were registered for) -/
+def IR.loopInsert (ir : IR) (func : Option Nat) (ab : Block) (a ao repl : Nat) (p : Patch) : Except Err (IR × Nat) :=
+  match ir.insert a ao repl p with
+  | .error e => .error e
+  | .ok (ir', last) =>
+    match func with
+    | some f => if !ab.isCode then .ok (ir'.adoptPatchBlocks p f, last) else .ok (ir', last)
+    | none => .ok (ir', last)
+
 /-- The loop of `_apply_modifications` over the resolved requests of one block. `origOff` is
-`block.offset` of the block the requests were registered for, `actual` the block the
+`block.offset` of the block the requests were registered for, `func` its function, `actual` the block the
 previous request returned (`none`: `delete` removed it entirely), `total` the running
 `total_insert_len`. -/
-def IR.applyMods (origOff : Nat) : IR → Option Nat → Int → List Mod → Except Err IR
+def IR.applyMods (origOff : Nat) (func : Option Nat) : IR → Option Nat → Int → List Mod → Except Err IR
   | ir, _, _, [] => .ok ir
   | _, none, _, _ :: _ => .error (.assertion "isinstance(actual_block, gtirb.ByteBlock)")
   | ir, some a, total, m :: ms =>
@@ -93,13 +113,13 @@ def IR.applyMods (origOff : Nat) : IR → Option Nat → Int → List Mod → Ex
       else
         match m with
         | .ins _ repl p =>
-          match ir.insert a ao.toNat repl p with
+          match ir.loopInsert func ab a ao.toNat repl p with
           | .error e => .error e
-          | .ok (ir', last) => IR.applyMods origOff ir' (some last) (total + (p.text.data.length : Int) - (repl : Int)) ms
+          | .ok (ir', last) => IR.applyMods origOff func ir' (some last) (total + (p.text.data.length : Int) - (repl : Int)) ms
         | .del _ len px =>
           match ir.delete a ao.toNat len px with
           | .error e => .error e
-          | .ok (ir', r) => IR.applyMods origOff ir' r (total - (len : Int)) ms
+          | .ok (ir', r) => IR.applyMods origOff func ir' r (total - (len : Int)) ms
 
 /-- the request as a listing edit (what `Listing.spliceSpec` consumes): only offset, removed
 length and inserted bytes matter for the bytes -/
